@@ -17,6 +17,7 @@ CM_CODE = {"L": 1, "RGB": 3, "CMYK": 4}
 SIZES_Q = [(1, 1), (1, 5), (5, 1), (3, 2), (2, 3), (127, 1), (128, 2), (129, 1), (1, 129), (7, 5)]
 SIZES_T = SIZES_Q + [(130, 3), (255, 1), (256, 2), (257, 1), (2, 128), (31, 17), (64, 9)]
 CANVAS = (6, 4)
+PSB_CANVAS = (30001, 1)
 OFFSETS = [(1, 1), (0, 0), (-2, -1), (5, 3), (50, 50), (-300, 0)]  # inside, straddling, outside
 _ST = None
 
@@ -38,7 +39,7 @@ def gen_doc_cases(ck):
                 if not thorough and mode in ("LA", "RGBA"):
                     styles = [2, ck.rng.choice([0, 1, 3])]
                 for astyle in styles:
-                    for _ in range(2 if thorough else 1):
+                    for _ in range(4 if thorough else 1):
                         yield dict(path="doc", mode=mode, w=w, h=h, seed=ck.rng.randrange(256),
                                    step=ck.rng.choice([1, 3, 5, 7, 11, 13, 101]), astyle=astyle, comp=comp)
 
@@ -51,7 +52,7 @@ def gen_layer_cases(ck):
             for (w, h) in sizes:
                 for comp in range(4):
                     offs = OFFSETS if thorough else [OFFSETS[0], ck.rng.choice(OFFSETS[1:]), ck.rng.choice(OFFSETS[1:])]
-                    for (left, top) in offs:
+                    for (left, top) in offs + (offs if thorough else []):
                         yield dict(path="layer", docmode=dm, depth=8, mode=mode, w=w, h=h, seed=ck.rng.randrange(256),
                                    step=ck.rng.choice([1, 3, 5, 7, 11, 13, 101]),
                                    astyle=ck.rng.choice([1, 2, 2, 3]) if mode in ("LA", "RGBA") else 0,
@@ -64,6 +65,14 @@ def gen_layer_cases(ck):
                     for (w, h) in [(3, 2), (1, 4)] + ([(128, 1)] if thorough else []):
                         yield dict(path="layer", docmode=dm, depth=depth, mode=mode, w=w, h=h, seed=ck.rng.randrange(256),
                                    step=5, astyle=2 if mode in ("LA", "RGBA") else 0, comp=comp, doccomp=0, top=1, left=1)
+    # PSB documents (version 2: PSDImage.new switches to it above 30000 pixels): RLE row counts are 4 bytes there
+    for dm in (["L", "RGB", "CMYK"] if not thorough else DOCMODES):
+        for mode in pc.MODES:
+            for comp in range(4):
+                for (w, h) in [(3, 2), (129, 1)] + ([(1, 5), (128, 2)] if thorough else []):
+                    yield dict(path="layer", docmode=dm, depth=8, mode=mode, w=w, h=h, seed=ck.rng.randrange(256), step=7,
+                               astyle=2 if mode in ("LA", "RGBA") else 0, comp=comp, doccomp=ck.rng.randrange(4),
+                               top=0, left=ck.rng.choice([0, 5, 29999, -1]), psb=True)
     # no document at all (psd_file=None): only the record is observable
     for mode in pc.MODES:
         yield dict(path="layer", docmode=None, depth=8, mode=mode, w=3, h=2, seed=ck.rng.randrange(256), step=5,
@@ -196,7 +205,9 @@ def observe_layer(c):
     try:
         psd = None
         if c["docmode"] is not None:
-            psd = PSDImage.new(c["docmode"], CANVAS, depth=c["depth"], compression=pc.comp_enum(c["doccomp"]))
+            psd = PSDImage.new(c["docmode"], PSB_CANVAS if c.get("psb") else CANVAS, depth=c["depth"],
+                               compression=pc.comp_enum(c["doccomp"]))
+            assert psd.version == (2 if c.get("psb") else 1)
         layer = PixelLayer.frompil(im, psd, "imported", c["top"], c["left"], pc.comp_enum(c["comp"]))
     except Exception as e:
         o["build_exc"] = e
@@ -476,7 +487,13 @@ def _still_fails(c):
     return probe.failures
 
 
+core.KNOWN_CLASSIFIERS["F-C07-9"] = lambda fl: (
+    _inp(fl).get("path") == "layer" and _inp(fl).get("psb") and _inp(fl).get("comp") == 1
+    and ((fl["kind"] == "layer-save-raises" and fl.get("exc") == "ValueError")
+         or (fl["kind"] == "layer-export-raises" and fl.get("exc") == "ValueError")))
+
 W = {
+    "F-C07-9": dict(path="layer", docmode="RGB", depth=8, mode="RGB", w=3, h=2, seed=1, step=5, astyle=0, comp=1, doccomp=0, top=0, left=0, psb=True),
     "F-C07-4": dict(path="doc", mode="RGBA", w=3, h=2, seed=3, step=5, astyle=2, comp=1),
     "F-C07-5": dict(path="doc", mode="1", w=3, h=2, seed=0, step=5, astyle=0, comp=1),
     "F-C07-7": dict(path="layer", docmode="RGB", depth=16, mode="RGB", w=3, h=2, seed=1, step=5, astyle=0, comp=0, doccomp=0, top=1, left=1),
@@ -572,8 +589,10 @@ def run():
         oracle_layer(ck, c, o)
         ck.count("layer:%s<-%s" % (c["docmode"], c["mode"]))
         ck.count("depth:%d" % c["depth"])
-        off = "inside" if (0 <= c["left"] and 0 <= c["top"] and c["left"] + c["w"] <= CANVAS[0] and c["top"] + c["h"] <= CANVAS[1]) else \
-              "outside" if (c["left"] >= CANVAS[0] or c["top"] >= CANVAS[1] or c["left"] + c["w"] <= 0 or c["top"] + c["h"] <= 0) else "straddling"
+        cv = PSB_CANVAS if c.get("psb") else CANVAS
+        off = "inside" if (0 <= c["left"] and 0 <= c["top"] and c["left"] + c["w"] <= cv[0] and c["top"] + c["h"] <= cv[1]) else \
+              "outside" if (c["left"] >= cv[0] or c["top"] >= cv[1] or c["left"] + c["w"] <= 0 or c["top"] + c["h"] <= 0) else "straddling"
+        ck.count("version:%s" % ("PSB" if c.get("psb") else "PSD"))
         ck.count("offset:" + off)
         ck.nontriv(("layer", c["docmode"], c["depth"], c["mode"], c["w"], c["h"], c["comp"], off))
         if i in corr_pick or c["w"] * c["h"] <= 8:
@@ -582,6 +601,9 @@ def run():
             cc = dict(c)
             cc["_pil_mode"] = o.get("pil_mode")
             if "build_exc" in o and "pil_mode" not in o:
+                continue
+            if c.get("psb") and c["comp"] == 1 and pc.is_open(st(), "F-C07-9"):
+                ck.count("correspondence skipped under open finding F-C07-9")
                 continue
             export = c["depth"] == 8 and c["docmode"] is not None
             layer_cases.append(((cc, conv_table(o["im"], o.get("pil_mode")), export), layer_impl_digests(c, o, export)))
@@ -609,16 +631,40 @@ def run():
     return ck.finish()
 
 
+def replay_container(c):
+    from psd_tools.constants import ColorMode
+    from psd_tools.psd.header import FileHeader
+    from psd_tools.psd.image_data import ImageData
+
+    hd = FileHeader(version=1, width=c["w"], height=c["h"], depth=c["depth"], channels=c["channels"], color_mode=ColorMode.RGB)
+    try:
+        idt = ImageData(compression=pc.comp_enum(c["comp"]))
+        idt.set_data([bytes(p) for p in c["planes"]], hd)
+        got = [list(b) for b in idt.get_data(hd)]
+    except Exception as e:
+        print("raises", repr(e))
+        return 1
+    ok = got == c["planes"]
+    print("planes set:", [len(p) for p in c["planes"]], "planes read back:", [len(p) for p in got], "equal:", ok)
+    return 0 if ok else 1
+
+
 def replay(path):
     pc.quiet()
     fl = json.load(open(path))
     c = fl["input"]
-    print("case:", c)
+    print("case:", {k: (v if k != "planes" else "%d planes" % len(v)) for k, v in c.items()})
+    if c.get("path") == "container":
+        return replay_container(c)
     if c.get("path") in ("doc", "layer"):
-        fs = _still_fails(c)
-        for f in fs:
-            print("FAIL", f["kind"], {k: v for k, v in f.items() if k not in ("kind", "input")})
-        print("expected:", fl["expected"], "| recorded kind:", fl["kind"], "| still failing:", bool(fs))
-        return 1 if fs else 0
-    print(fl)
+        open_ids = {k for k, v in st().items() if v == "open"}
+        unlisted = []
+        for f in _still_fails(c):
+            cover = [k for k in open_ids if k in core.KNOWN_CLASSIFIERS and core.KNOWN_CLASSIFIERS[k](f)]
+            print("FAIL" if not cover else "known %s" % cover, f["kind"], {k: v for k, v in f.items() if k not in ("kind", "input")})
+            if not cover:
+                unlisted.append(f)
+        print("expected:", fl["expected"], "| recorded kind:", fl["kind"], "| failing outside the known findings:", bool(unlisted))
+        return 1 if unlisted else 0
+    print("nothing to re-run for", c)
     return 1
